@@ -23,9 +23,17 @@ import (
 // ---------------------------------------------------------------------------------------------
 // Exit protocol: 0 = held, 1 = VIOLATION (real code broke the property), 2 = machinery failure.
 
+// specDir: the TLA+ modules; VERIF_SPEC_DIR points developer sweeps at a snapshot so that edits made
+// while they run do not interfere
+var specDir = func() string {
+	if d := os.Getenv("VERIF_SPEC_DIR"); d != "" {
+		return d
+	}
+	return "/verif/spec"
+}()
+
 const (
 	verifRoot = "/verif"
-	specDir   = "/verif/spec"
 	tlaJars   = "/opt/veriftools/tla/tla2tools.jar:/opt/veriftools/tla/CommunityModules-deps.jar"
 )
 
